@@ -126,8 +126,7 @@ def convert_intrinsic_calls(tree):
         if isinstance(call, N.IntrinsicCall):
             continue
         name = call.routine.name.lower()
-        if name not in INTRINSIC_SUBS or name in defined or \
-                name == "move_alloc":
+        if name not in INTRINSIC_SUBS or name in defined:
             continue
         intr = getattr(N.IntrinsicCall.Intrinsic, name.upper(), None)
         if intr is None:
@@ -1298,7 +1297,7 @@ def cases(draw, profile, max_templates=3, only=None):
         names.append(name)
     api_intr = draw(st.booleans()) if any(
         n in ("random_number", "cpu_time", "system_clock", "date_and_time",
-              "mvbits", "random_seed") for n in names) else False
+              "mvbits", "random_seed", "alloc") for n in names) else False
     # stable order: blocks drawn for the same position keep drawing order
     ordered = []
     for num, (pos, lines) in enumerate(blocks):
